@@ -17,7 +17,10 @@ EXPLANATION = (
     "construction; R6 every skip site tests the kind set of the matcher it then runs, on the not-contained branch, and the "
     "combined scan's kind→rule index is built from and used with the same rule vector; R7 ERROR (wildcard) kinds are never "
     "inserted into a kind set; R8 the literal prefilter honours the pattern's strictness, with the relation 'which "
-    "strictness compares which token class' read from match_terminal's own CFG."
+    "strictness compares which token class' read from match_terminal's own CFG. R9 the one clause of 'overlap-free traversal keeps only "
+    "the outermost of nested matches' that has a shape: wherever matches are filtered by comparing a range start with an earlier range "
+    "end (today only in the CLI printers; the library uses the tree-structural Visitor), the comparison must put start == end on the "
+    "'not nested' side — sibling implementations must agree on the boundary."
 )
 NOT_DECIDED = (
     "That per-node matching is right (C02/C03); traversal coverage/order and the overlap-free visitor (C19); that "
@@ -123,6 +126,7 @@ def run(ctx):
         ("R6", "skip sites test the set of the matcher they run, skip on not-contained; combined-scan index built from and used with one rule vector"),
         ("R7", "an ERROR (wildcard) pattern kind is never inserted into a potential-kind set"),
         ("R8", "the literal file prefilter depends on the pattern's strictness consistently with match_terminal"),
+        ("R9", "overlap filters over byte ranges separate start < previous end from start >= previous end (half-open ranges: an adjacent match is not nested)"),
     ):
         ctx.rule(rid, text)
     impls = matcher_impls(prog)
@@ -148,6 +152,7 @@ def run(ctx):
     r6(ctx)
     r7(ctx)
     r8(ctx)
+    r9(ctx)
 
 
 # ------------------------------------------------------------------------------------------------
@@ -780,3 +785,18 @@ def reads_field(prog, fn, field):
             if t[0] == "switch" and t[1][0] != "k" and field in field_path(t[1][1][1]):
                 return True
     return False
+
+
+def r9(ctx):
+    from ..query import overlap_tests
+    prog = ctx.prog
+    tests = overlap_tests(prog, ("ast_grep_core", "ast_grep_config", "ast_grep", "ast_grep_lsp", "ast_grep_napi"))
+    ctx.floor("R9", "range-overlap comparisons found in the workspace (positive control)", len(tests), 3)
+    seen = {}
+    for f, line, raw, op, ok in tests:
+        seen[f.id] = seen.get(f.id, 0) + 1
+        ctx.ob("R9", "overlap test in %s#%d" % (f.id, seen[f.id]), ok,
+               "`start %s end`: an item that begins exactly where the previous one ends is treated as not overlapping" % {"Lt": "<", "Ge": ">="}.get(op, op) if ok else
+               "`start %s previous end` puts start == end on the overlapping side: byte ranges are half-open, so a match that begins exactly where the previous one "
+               "ends (`a;b;c;`, `${a}${b}`) is dropped although it is not nested (the other overlap filters of the code base use `start < end`)" % {"Le": "<=", "Gt": ">"}.get(op, op),
+               where=f.loc(line))
